@@ -205,7 +205,7 @@ fn classify(src: &str, e: &Expr) -> Result<Vec<Option<bool>>, String> {
             span: proc_macro2::Span::call_site(),
         }));
         out.push(Some(attr.starts_with(". class (move ||")));
-        match syn::parse_str::<Root>(&format!("div(class={src}, data-x={src}, prop:value={src}, \"data-q\"={src}) {{ ({src}) }}")) {
+        match parse_src::<Root>(&format!("div(class={src}, data-x={src}, prop:value={src}, \"data-q\"={src}) {{ ({src}) }}")).ok_or(()) {
             Ok(root) => {
                 let t = squash(cg.root(&root));
                 out.push(Some(t.contains("children (:: std :: vec ! [:: sycamore :: rt :: View :: from_dynamic (move ||")));
@@ -228,8 +228,40 @@ pub fn exec(line: &str) -> (String, Option<String>, bool) {
     unreachable!("isdyn cases are executed from source text in run()")
 }
 
+/// `__group!(…)` in a source text stands for the invisible-delimiter group (`Delimiter::None`) that rustc makes
+/// of a `macro_rules!` fragment (`$x:expr`) when it forwards it to a proc-macro: no source text can spell one
+fn degroup(ts: proc_macro2::TokenStream) -> proc_macro2::TokenStream {
+    use proc_macro2::{Delimiter, Group, TokenTree};
+    let toks: Vec<TokenTree> = ts.into_iter().collect();
+    let mut out: Vec<TokenTree> = vec![];
+    let mut i = 0;
+    while i < toks.len() {
+        if let (TokenTree::Ident(id), Some(TokenTree::Punct(p)), Some(TokenTree::Group(g))) = (&toks[i], toks.get(i + 1), toks.get(i + 2)) {
+            if id == "__group" && p.as_char() == '!' && g.delimiter() == Delimiter::Parenthesis {
+                out.push(TokenTree::Group(Group::new(Delimiter::None, degroup(g.stream()))));
+                i += 3;
+                continue;
+            }
+        }
+        match &toks[i] {
+            TokenTree::Group(g) => {
+                let mut ng = Group::new(g.delimiter(), degroup(g.stream()));
+                ng.set_span(g.span());
+                out.push(TokenTree::Group(ng));
+            }
+            t => out.push(t.clone()),
+        }
+        i += 1;
+    }
+    out.into_iter().collect()
+}
+fn parse_src<T: syn::parse::Parse>(src: &str) -> Option<T> {
+    let ts: proc_macro2::TokenStream = src.parse().ok()?;
+    syn::parse2(degroup(ts)).ok()
+}
+
 fn exec_src(src: &str) -> Option<(String, String, Option<String>, bool)> {
-    let e: Expr = syn::parse_str(src).ok()?;
+    let e: Expr = parse_src(src)?;
     // the text must print back to something that parses to the same tree (guards the side table)
     let sexp = ex(&e);
     let ce = contains_eval(&e);
@@ -272,6 +304,8 @@ const EXPRS: &[&str] = &[
     "{E}({E})", "Foo({E})", "a::Bar({E}, 1)", "{E}.m({E})", "{E}.await", "{E}?", "{E} = {E}", "&{E}", "&mut {E}", "&raw const {E}", "return {E}", "return",
     "async { {S} }", "async move { {E} }", "unsafe { {S} }", "|x| {E}", "move |x: u8| { {S} }", "m!({E})", "format!(\"{}\", {E})", "view! { p { ({E}) } }", "x::<{ N }>",
     "{E} as [u8; 3]", "#[a] {E}",
+    // a fragment forwarded by a `macro_rules!` wrapper arrives as an invisible group (see `degroup`)
+    "__group!({E})", "__group!({E}) + 1", "-__group!({E})",
 ];
 const STMTS: &[&str] = &[
     "{E};", "{E}", "let {P} = {E};", "let {P}: T = {E};", "let {P};", "let {P} = {E} else { {S} };", "let Some({P}) = {E} else { return; };",
@@ -432,7 +466,13 @@ pub fn generate(args: &Args) -> Vec<String> {
 fn macro_sites() -> Vec<(&'static str, &'static str, fn() -> String)> {
     use sycamore::prelude::*;
     fn twice(x: i32) -> i32 { x * 2 }
+    // a wrapper that forwards an `expr` fragment: the proc-macro receives it as an invisible group
+    macro_rules! field { ($label:expr, $value:expr) => { view! { p { ($label) ": " ($value) } } }; }
+    macro_rules! plus_one { ($value:expr) => { view! { ($value + 1) } }; }
     vec![
+        ("a macro_rules wrapper forwards the interpolated expression", "__group!(count.get())", || sycamore::web::render_to_string(|| { let count = create_signal(7); field!("count", count.get()) })),
+        ("a macro_rules wrapper forwards an operand", "__group!(count.get()) + 1", || sycamore::web::render_to_string(|| { let count = create_signal(7); plus_one!(count.get()) })),
+        ("a macro_rules wrapper forwards a literal", "__group!(7)", || sycamore::web::render_to_string(|| field!("seven", 7))),
         ("the whole invocation is one interpolation", "count.get()", || sycamore::web::render_to_string(|| { let count = create_signal(7); view! { (count.get()) } })),
         ("one interpolation, a function call", "twice(n)", || sycamore::web::render_to_string(|| { let n = 3; view! { (twice(n)) } })),
         ("one interpolation, a macro", "format!(\"{}\", n)", || sycamore::web::render_to_string(|| { let n = 3; view! { (format!("{}", n)) } })),
@@ -470,7 +510,7 @@ pub fn run(args: &Args) {
     }
     if !only {
         for (site, src, render) in macro_sites() {
-            let e: Expr = syn::parse_str(src).expect("macro site source");
+            let e: Expr = parse_src(src).expect("macro site source");
             let ce = contains_eval(&e);
             let (obs, verdict) = match catch(render) {
                 Ok(html) => {
